@@ -134,6 +134,25 @@ func runLock(cfg *config) {
 			must("DELETE FROM t")
 		}
 	}
+	if cfg.tier == "thorough" {
+		// one statement that dirties more pages than the page cache holds (10000): it must be refused or
+		// complete without any page reaching the file before its log records do
+		must("CREATE TABLE huge (a int, b varchar(255))")
+		var vs []string
+		for k := 0; k < 42000; k++ {
+			vs = append(vs, fmt.Sprintf("(%d, 'h')", k))
+		}
+		q := "INSERT INTO huge VALUES " + strings.Join(vs, ", ")
+		cfg.tr.Op("bulk 42000")
+		atomic.StoreInt32(&inside, 0)
+		atomic.StoreInt32(&watch, 1)
+		wdog.Run(func() { hx.Catch(func() { sess.ExecQuery(q) }) })
+		atomic.StoreInt32(&watch, 0)
+		atomic.StoreInt32(&inStmt, 0)
+		atomic.StoreInt32(&ended, 0)
+		atomic.StoreInt32(&gap, 0)
+		cfg.tr.Out("ok writes-inside-statement=%d", atomic.LoadInt32(&inside))
+	}
 	rounds := 2 * cfg.scale
 	for i := 0; i < rounds; i++ {
 		park("insert", fmt.Sprintf("INSERT INTO t VALUES (%d, 'x'), (%d, 'y'), (%d, 'z')", 3*i, 3*i+1, 3*i+2))
